@@ -2,15 +2,16 @@
 C03 (progress) and the termination half of C02 for PM stage 2c (multi-column containers).
 
 `pos box σ` = units of the box consumed before the resume position `σ` (one unit per line, one per box:
-`sizeBox`).  For ALL documents of the extended grammar without fixed heights on blocks / paragraphs, with
-`orphans, widows ≥ 1` and without `column-span: all` children:
-* `layout_progress_partial`: a layout that returns a fragment and a resume position returns a strictly later
+`sizeBox`).  For ALL documents of the extended grammar without fixed heights on blocks / paragraphs and with
+`orphans, widows ≥ 1` — `column-span: all` children of any shape included:
+* `layout_progress`: a layout that returns a fragment and a resume position returns a strictly later
   position — also for a container, whose resume position is computed from the last real column;
-* `page_progress_partial`: a non-blank page finishes the document or hands over a strictly later position;
-* `paginate_bounded_partial`: `make_all_pages` never needs more than `2·size + 2` pages (the fuel of the model
+* `page_progress`: a non-blank page finishes the document or hands over a strictly later position;
+* `paginate_bounded`: `make_all_pages` never needs more than `2·size + 2` pages (the fuel of the model
   never runs out) and produces at most `2·size` pages.
 With spanning children page progress was false before the repair b24b457 (a page that showed nothing new; now
-`Witness.C01Col.group_resumed_span_once`); the hypothesis stays as explained in `Props/C01Col.lean`.
+`Witness.C01Col.group_resumed_span_once`); since b24b457 and d7e3d63 the hypothesis `NoSpan` is gone
+(`Lemmas/ColSegBlock.colsLoop_spec`).
 -/
 import WpModel.Lemmas.ColSegPages
 
@@ -20,22 +21,22 @@ open Wp Wp.PM Wp.PMC
 theorem pos_lt_size (box : ColBox) (σ : Option Resume) : PMC.pos box σ < sizeBox box := PMC.pos_lt_size box σ
 
 /-- **Strict progress of `block_level_layout`**, extended grammar. -/
-theorem layout_progress_partial (box : ColBox) (hN : PMC.NoFixedHeight box) (hW : PMC.WellFormed box) (hS : NoSpan box)
+theorem layout_progress (box : ColBox) (hN : PMC.NoFixedHeight box) (hW : PMC.WellFormed box)
     (c : CCtx) (idx : Nat) (y bs : Rat) (skip : Option Resume) (cb pie : Bool) (adjL : List Rat) (f : CFrag)
     (r : Resume)
     (hf : (PMC.layoutBox c box idx y bs skip cb pie adjL).frag = some f)
     (hr : (PMC.layoutBox c box idx y bs skip cb pie adjL).resume = some r) :
     PMC.pos box skip < PMC.pos box (some r) := by
-  have := PMC.box_spec box (PMC.good_of box hN hW hS) c idx y bs skip cb pie adjL
+  have := PMC.box_spec box (PMC.good_of box hN hW) c idx y bs skip cb pie adjL
   rw [hr] at this
   exact PMC.boxPost_progress _ _ _ _ _ this hf
 
 /-- **Strict progress of pages**, extended grammar. -/
-theorem page_progress_partial (d : CDoc) (hN : PMC.NoFixedHeight d.root) (hW : PMC.WellFormed d.root)
-    (hS : NoSpan d.root) (index : Nat) (resume : Option Resume) (np : NextPage) (right : Bool) (p : CPage)
+theorem page_progress (d : CDoc) (hN : PMC.NoFixedHeight d.root) (hW : PMC.WellFormed d.root)
+    (index : Nat) (resume : Option Resume) (np : NextPage) (right : Bool) (p : CPage)
     (hp : PMC.remakePage d index resume np right = .ok p) (hnb : p.type.blank = false) :
     p.resume = none ∨ PMC.pos d.root resume < PMC.pos d.root p.resume := by
-  obtain ⟨_, h2⟩ := PMC.remakePage_lines d (PMC.good_of _ hN hW hS) index resume np right p hp
+  obtain ⟨_, h2⟩ := PMC.remakePage_lines d (PMC.good_of _ hN hW) index resume np right p hp
   cases hr : p.resume with
   | none => left; rfl
   | some r => right; exact (h2 hnb).2 r hr
@@ -71,8 +72,7 @@ def PagesOut.isFuel : PagesOut → Bool
 
 /-- **`make_all_pages` never runs out of fuel**: with at least `pagesNeeded` units it returns pages (at most that
 many), or stops on `assert root_box` / an exception — from every page-maker state. -/
-theorem makeAllPages_bounded_partial (d : CDoc) (hN : PMC.NoFixedHeight d.root) (hW : PMC.WellFormed d.root)
-    (hS : NoSpan d.root) :
+theorem makeAllPages_bounded (d : CDoc) (hN : PMC.NoFixedHeight d.root) (hW : PMC.WellFormed d.root) :
     ∀ (fuel index : Nat) (resume : Option Resume) (np : NextPage) (right : Bool),
     pagesNeeded d resume np right ≤ fuel →
     PagesOut.isFuel (PMC.makeAllPages d fuel index resume np right) = false ∧
@@ -119,7 +119,7 @@ theorem makeAllPages_bounded_partial (d : CDoc) (hN : PMC.NoFixedHeight d.root) 
             rw [hnp, hflip, ← hbl, hb, ← hr, hres]
             simp
           | false =>
-            have hprog := page_progress_partial d hN hW hS index resume np right p hp hb
+            have hprog := page_progress d hN hW index resume np right p hp hb
             rw [hr] at hprog
             have hprog : PMC.pos d.root resume < PMC.pos d.root (some r) := by
               rcases hprog with h | h
@@ -144,8 +144,7 @@ theorem makeAllPages_bounded_partial (d : CDoc) (hN : PMC.NoFixedHeight d.root) 
 
 /-- **Pagination is bounded**: `2·size + 2` units of fuel are always enough and a paginated document has at most
 `2·size` pages. -/
-theorem paginate_bounded_partial (d : CDoc) (hN : PMC.NoFixedHeight d.root) (hW : PMC.WellFormed d.root)
-    (hS : NoSpan d.root) :
+theorem paginate_bounded (d : CDoc) (hN : PMC.NoFixedHeight d.root) (hW : PMC.WellFormed d.root) :
     PagesOut.isFuel (paginateCol d (2 * sizeBox d.root + 2)) = false ∧
     ∀ pages, paginateCol d (2 * sizeBox d.root + 2) = .ok pages → pages.length ≤ 2 * sizeBox d.root := by
   unfold paginateCol
@@ -154,7 +153,7 @@ theorem paginate_bounded_partial (d : CDoc) (hN : PMC.NoFixedHeight d.root) (hW 
     unfold pagesNeeded
     simp [requestedSide, isBlank]
     omega
-  obtain ⟨h1, h2⟩ := makeAllPages_bounded_partial d hN hW hS (2 * sizeBox d.root + 2) 0 none
+  obtain ⟨h1, h2⟩ := makeAllPages_bounded d hN hW (2 * sizeBox d.root + 2) 0 none
     { brk := none, page := some (PMC.boxPageStart d.root) } (PMC.firstRight d) (by omega)
   exact ⟨h1, fun pages hp => by have := h2 pages hp; omega⟩
 
@@ -172,14 +171,32 @@ def exDoc : CDoc :=
          [.para 2 6 10 exSt, .para 3 2 10 { exSt with mt := 4 }],
        .para 5 2 10 exSt]] }
 
-example : PMC.NoFixedHeight exDoc.root ∧ PMC.WellFormed exDoc.root ∧ NoSpan exDoc.root ∧ sizeBox exDoc.root = 19 := by
-  refine ⟨?_, ?_, ?_, by decide⟩ <;>
-  simp [exDoc, exSt, PMC.NoFixedHeight, PMC.NoFixedHeightList, PMC.WellFormed, PMC.WellFormedList, NoSpan, NoSpanList,
-    NoSpanFlags]
+example : PMC.NoFixedHeight exDoc.root ∧ PMC.WellFormed exDoc.root ∧ sizeBox exDoc.root = 19 := by
+  refine ⟨?_, ?_, by decide⟩ <;>
+  simp [exDoc, exSt, PMC.NoFixedHeight, PMC.NoFixedHeightList, PMC.WellFormed, PMC.WellFormedList]
 
 example : (match paginateCol exDoc 42 with
     | .ok ps => ps.map (fun (p : CPage) => PMC.pos exDoc.root p.resume)
     | _ => []) = [5, 14, 0] := by
+  decide +kernel
+
+/-! Non-vacuity with spanning children (`C01Col.exSpan`, size 20): a group, a spanning block with two paragraphs
+cut by the page, a group: positions 0 → 7 → 14 → end. -/
+def exSpan : CDoc :=
+  { pageH := 40, rootLtr := true,
+    root := .block 9 { exSt with isRoot := true } [.block 8 exSt
+      [.columns 7 exSt { count := 2, balance := true, ltr := true, width := 192 } [false, true, false]
+        [.para 6 2 10 exSt,
+         .block 5 exSt [.para 1 2 10 exSt, .para 2 4 10 exSt],
+         .para 3 4 10 exSt]]] }
+
+example : PMC.NoFixedHeight exSpan.root ∧ PMC.WellFormed exSpan.root ∧ sizeBox exSpan.root = 20 := by
+  refine ⟨?_, ?_, by decide⟩ <;>
+  simp [exSpan, exSt, PMC.NoFixedHeight, PMC.NoFixedHeightList, PMC.WellFormed, PMC.WellFormedList]
+
+example : (match paginateCol exSpan 42 with
+    | .ok ps => ps.map (fun (p : CPage) => PMC.pos exSpan.root p.resume)
+    | _ => []) = [7, 14, 0] := by
   decide +kernel
 
 end Wp.C03Col
